@@ -123,4 +123,45 @@ impl Buf {
     r@.len() == self.len, // [C14]
     self.len > 0 ==> r@ == self.mem@.subrange(self.off(), self.off() + self.len as int), // [C14]
 //@@end
+
+//@@fn file=bytes.rs scope="impl<'a, A: Allocator> BytesRefMut<'a, A> {" name=len xlate=plain props=C14
+//@contract
+  ensures r == self.len, // [C14]
+//@@end
+//@@fn file=bytes.rs scope="impl<'a, A: Allocator> BytesRefMut<'a, A> {" name=is_empty xlate=plain props=C14
+//@contract
+  ensures r == (self.len == 0), // [C14]
+//@@end
+//@@fn file=bytes.rs scope="impl<'a, A: Allocator> BytesRefMut<'a, A> {" name=remaining xlate=plain props=C14
+//@contract
+  requires self.inv(),
+  ensures r as int == self.cap() - self.len as int, // [C14]
+//@@end
+//@@fn file=bytes.rs scope="impl<A: Allocator> ops::DerefMut for BytesRefMut<'_, A> {" name=deref_mut xlate=plain props=C14
+//@subst /&mut Self::Target/ => Win
+//@subst /return &mut \[\];/ => return empty_win();
+//@subst /unsafe \{ self\.arena\.get_bytes_mut\(/ => unsafe { self.arena_get_bytes_mut(
+//@contract
+  requires old(self).inv(),
+  ensures
+    *final(self) == *old(self),
+    r.n@ == old(self).len as int, // [C14]
+    old(self).len > 0 ==> r.lo@ == old(self).off(), // [C14]
+//@@end
+//@@fn file=bytes.rs scope="impl<A: Allocator> ops::DerefMut for BytesMut<A> {" name=deref_mut rename=deref_mut__own xlate=plain props=C14
+//@subst /&mut Self::Target/ => Win
+//@subst /match self\.arena \{/ => match self.arena_side() {
+//@subst /Either::Left\(ref mut arena\) =>/ => Side::Left =>
+//@subst /Either::Right\(_\) => &mut \[\],/ => Side::Right => empty_win(),
+//@subst /unsafe \{ arena\.get_bytes_mut\(/ => unsafe { self.arena_get_bytes_mut(
+//@subst? /self\.offset\(\)/ => self.offset__own()
+//@subst? /self\.capacity\(\)/ => self.capacity__own()
+//@subst? /self\.buffer_offset\(\)/ => self.buffer_offset__own()
+//@contract
+  requires old(self).inv(), old(self).null_arena ==> old(self).cap() == 0,
+  ensures
+    *final(self) == *old(self),
+    r.n@ == old(self).len as int, // [C14]
+    old(self).len > 0 ==> r.lo@ == old(self).off(), // [C14]
+//@@end
 } // impl Buf (window)
